@@ -49,7 +49,7 @@ def record_plan(fil, gulp, start, nsamps, skip, maxblocks=10000):
 
 def make_set(d, name, n, c, nbits, split, rng, mode):
     data = fixtures.identity_data(n, c, nbits, rng, mode)
-    names = fixtures.write_set(d, name, data, nbits, split)
+    names = fixtures.write_set(d, name, data, nbits, split, longname=(len(name) % 2 == 0))
     files = [list(open(f, "rb").read()[-(k * c * nbits // 8):]) if k else [] for f, k in zip(names, split)]
     return names, files, [int(x) for x in data.ravel()]
 
